@@ -78,12 +78,17 @@ Definition logs_str (logs : list (list ch)) : list ch :=
 
 Definition STEPS : nat := Z.to_nat 400000.
 
-Definition song_after_lex (ls : lexstate) : song := song_with_ls song_new ls.
+(* Song::new() followed by Song::set_language: SakuraCompiler::compile sets the language before lex and exec *)
+Definition song_new_lang (ja : bool) : song := s_set_ja song_new ja.
+(* the song exec() starts from: the language is the one the lexer ran with (one Song in the code) *)
+Definition song_after_lex (ls : lexstate) : song := song_with_ls (song_new_lang (lx_ja ls)) ls.
 
-Definition run_source (src : list ch) : res song :=
-  do lx <- lex (mkLex 96 [] init_vars rhythm_rows) src 0;
+(* `ja` = the message language (false = "en", the default of every entry point; true = "ja", SakuraCompiler::set_language) *)
+Definition run_source_lang (ja : bool) (src : list ch) : res song :=
+  do lx <- lex (mkLex 96 [] init_vars rhythm_rows ja) src 0;
   let '(toks, ls) := lx in
   exec_f (S (length src)) STEPS toks (Ok (song_after_lex ls)).
+Definition run_source (src : list ch) : res song := run_source_lang false src.
 
 (* generate(): flush_tie_notes (pending tied groups of every track), then play_from_all_track *)
 Definition tracks_for_writer (s : song) : list (list event) :=
@@ -91,7 +96,8 @@ Definition tracks_for_writer (s : song) : list (list event) :=
                 (* play_from_all_track sorts by time first: "latest" means latest in time *)
                 if s_play_from s <? 0 then evs else play_from (s_play_from s) (events_sort evs)) (s_tracks s).
 
-Definition compile (src : list ch) : res (list byte * list ch) :=
-  do s <- run_source src;
+Definition compile_lang (ja : bool) (src : list ch) : res (list byte * list ch) :=
+  do s <- run_source_lang ja src;
   do bytes <- generate (s_timebase s) (tracks_for_writer s);
   Ok (bytes, logs_str (s_logs s)).
+Definition compile (src : list ch) : res (list byte * list ch) := compile_lang false src.
